@@ -57,15 +57,79 @@ example : (run init [.alloc, .register, .fetch, .liveRelease, .doEv, .liveDone, 
     (fun s => (s.st, s.ownerHolds, s.pollerHolds, s.bad)) = some (1, false, false, false) := by decide
 
 /-- non-vacuity: the close of the owner overlaps a dispatch in progress; the descriptor is closed after the dispatch ended -/
-example : (run init [.alloc, .register, .fetch, .doEv, .detach, .doneEv, .unused, .reset, .freeable, .closeFd 1, .endBatch]).map
+example : (run init [.alloc, .register, .fetch, .doEv, .detach, .doneEv, .stopFlush, .unused, .reset, .freeable, .closeFd 1, .endBatch]).map
     (fun s => (s.fdOpen, s.bad)) = some (false, false) := by decide
 /-- … and cannot be closed while the dispatch is in progress (`unused()` spins, the finalizer has not reached `netFD.Close`) -/
 example : run init [.alloc, .register, .fetch, .doEv, .detach, .closeFd 1] = none := by decide
 
 /-- non-vacuity: a full life cycle with a close placed between fetch and dispatch, then reuse by a second owner -/
-example : (run init [.alloc, .register, .fetch, .detach, .unused, .reset, .freeable, .doEv, .endBatch,
+example : (run init [.alloc, .register, .fetch, .detach, .stopFlush, .unused, .reset, .freeable, .doEv, .endBatch,
     .alloc, .register, .staleRelease 1 true, .fetch, .doEv, .doneEv, .endBatch]).map (fun s => (s.gen, s.bad)) = some (2, false) := by
   decide
+
+/-- **C10_fd_open_while_writer_in_flight** (an API call of the connection in flight ACROSS its close).  A `Write` / `Flush` that has
+passed `IsActive()` and taken `lock(flushing)` uses `c.fd` (`sendmsg`) and `c.operator` (`Control(PollR2RW)`, `Control(PollRW2R)`)
+without looking at the close state again.  For every interleaving of such a writer with the owner's close (detach,
+`stop(flushing)`, `operator.Free()`, `netFD.Close()`), the poller's batches and later owners: while the writer is in flight the slot
+is still its connection's, the operator has not been given back and the descriptor is still open – the number cannot have been
+handed to another connection, so the writer's bytes can only go to its own peer (`wUse` never sets `bad`).  The finalizer's
+`stop(flushing)` in front of `Free()` is what this rests on (`C10_free_before_stop_witness`). -/
+theorem C10_fd_open_while_writer_in_flight (acts : List Act) (s : S) (hall : acts.all guardedAct = true) (hr : run init acts = some s) :
+    ∀ g, s.writer = some g →
+      g = s.gen ∧ s.loc = .owned ∧ s.fdOpen = true ∧ (s.pc = .live ∨ s.pc = .detached) ∧ s.stopped = false ∧
+      ∃ s', step s .wUse = some s' ∧ s'.bad = false := by
+  intro g hw
+  have hg := good_run acts init s good_init hall hr
+  simp only [Good] at hg
+  have hb : s.bad = false := hg.1
+  have hW := hg.2.2.2.2.2.2.2.2.2.2.2.2.2.2.2.2.2.2.2 g hw
+  have hfd : s.fdOpen = true := hg.2.2.2.2.2.2.2.2.2.2.2.2.2.2.2.2.2.2.1 hW.2.1
+  refine ⟨hW.1, hW.2.1, hfd, hW.2.2.1, hW.2.2.2.2, ?_⟩
+  refine ⟨{ s with bad := s.bad || (g != s.gen) || !s.fdOpen || !(decide (s.pc = .live) || decide (s.pc = .detached)) }, ?_, ?_⟩
+  · simp only [step, hw]
+  · have h1 := hW.1
+    rcases hW.2.2.1 with h | h <;> simp [hb, h1, hfd, h]
+
+/-- non-vacuity: a writer in flight while its owner closes: the finalizer's `stop(flushing)` is not enabled until the writer has left,
+so neither are `Free` and the close of the descriptor -/
+example : (run init [.alloc, .register, .wLock, .detach, .wUse, .wUnlock, .stopFlush, .unused, .reset, .freeable, .closeFd 1]).map
+    (fun s => (s.fdOpen, s.bad, s.writer)) = some (false, false, none) := by decide
+example : run init [.alloc, .register, .wLock, .detach, .stopFlush] = none := by decide
+example : run init [.alloc, .register, .wLock, .detach, .unused] = none := by decide
+/-- … and once the finalizer is past `stop(flushing)` no writer gets in any more -/
+example : run init [.alloc, .register, .detach, .stopFlush, .wLock] = none := by decide
+
+/-- **Witness: a finalizer that frees the operator and closes the descriptor before it waits for the flusher is wrong.**
+(`unusedEarly` = `operator.Free()` without a preceding `stop(flushing)`.)  The writer in flight then acts on a descriptor number that
+has been given back – and, after the batch ended and a new connection took the slot, on that connection's operator. -/
+theorem C10_free_before_stop_witness :
+    (run init [.alloc, .register, .wLock, .detach, .unusedEarly, .reset, .freeable, .closeFd 1, .wUse]).map (fun s => s.bad) = some true ∧
+    (run init [.alloc, .register, .wLock, .detach, .unusedEarly, .reset, .freeable, .closeFd 1, .fetchOther, .endBatch,
+      .alloc, .register, .wUse]).map (fun s => (s.gen, s.bad)) = some (2, true) := by decide
+
+/-- **C10_freed_slot_not_registered** (the DIAL operator as a slot owner, and every other owner).  A descriptor is registered with the
+slot's pointer only while the slot is owned and its owner has not detached: when an owner – a connection's close finalizer, or
+`netFD.connect`'s deferred `operator.Free()` after `pollDesc.WaitWrite` returned through `onwrite` (detach inside the dispatch),
+through a hang-up (`appendHup` detaches) or through `ctx.Done()` (`WaitWrite` detaches itself) – gives the slot back, nothing is
+registered through it, on the freelist and on the free chain alike; so no event fetched later can reach the next owner through a
+registration of an earlier one (`Act.fetch` needs `registered`). -/
+theorem C10_freed_slot_not_registered (acts : List Act) (s : S) (hall : acts.all guardedAct = true) (hr : run init acts = some s) :
+    (s.registered = true → s.loc = .owned ∧ s.pc = .live ∧ s.cbGen = some s.gen) ∧
+    (s.pc = .unusedDone ∨ s.pc = .resetDone ∨ s.pc = .gone → s.registered = false) := by
+  have hg := good_run acts init s good_init hall hr
+  simp only [Good] at hg
+  grind
+
+/-- non-vacuity: a dial times out (its own detach), frees its slot, the batch ends, a connection takes the slot, the dial's descriptor
+is closed last; a dial woken by `onwrite`; a dial whose hang-up is delivered after its slot was reused -/
+example : (run init [.allocDial, .register, .detach, .unused, .reset, .freeable, .fetchOther, .endBatch, .alloc, .register, .closeFd 1,
+    .fetch, .doEv, .doneEv, .endBatch]).map (fun s => (s.gen, s.registered, s.kind, s.bad)) = some (2, true, Kind.conn, false) := by decide
+example : (run init [.allocDial, .register, .fetch, .doEv, .detach, .doneEv, .unused, .reset, .freeable, .closeFd 1, .endBatch]).map
+    (fun s => (s.loc, s.registered, s.bad)) = some (Loc.first, false, false) := by decide
+example : (run init [.allocDial, .register, .fetch, .doEv, .queueHup, .detach, .doneEv, .unused, .reset, .freeable, .closeFd 1, .endBatch,
+    .alloc, .register, .runHup 1 false]).map (fun s => (s.gen, s.registered, s.bad)) = some (2, true, false) := by decide
+/-- a dial's slot cannot be freed while it is registered (no path to `unused` but through a detach) -/
+example : run init [.allocDial, .register, .unused] = none := by decide
 
 /-- **C10_queued_hup_isolated** (hang-ups recorded in a batch are delivered later, on another goroutine).  `appendHup` records the
 hang-up while the poller holds the slot's token; the goroutine started by `onhups()` delivers it at ANY later point of ANY
@@ -86,7 +150,7 @@ theorem C10_queued_hup_isolated (acts : List Act) (s : S) (hall : acts.all guard
 
 /-- non-vacuity: hang-up recorded for owner 1, owner 1 closes, the batch ends, owner 2 takes the slot, THEN the goroutine delivers
 the entry: owner 2 is not touched -/
-example : (run init [.alloc, .register, .fetch, .doEv, .queueHup, .detach, .doneEv, .unused, .reset, .freeable, .closeFd 1, .endBatch,
+example : (run init [.alloc, .register, .fetch, .doEv, .queueHup, .detach, .doneEv, .stopFlush, .unused, .reset, .freeable, .closeFd 1, .endBatch,
     .alloc, .register, .runHup 1 false]).map (fun s => (s.gen, s.cbGen, s.hupq, s.bad)) = some (2, some 2, [], false) := by decide
 
 /-- **Witness: a hang-up queue that holds slots instead of the copied funcs is wrong.**  If the goroutine read `OnHup` from the
@@ -94,20 +158,20 @@ slot when it reaches the entry (`late = true`), the same history delivers owner 
 closed "by peer" although its peer is alive.  (When the slot has only been reset, not yet reused, the late read finds nil and
 skips the entry – which is why nothing notices until the slot is reused.) -/
 theorem C10_late_onhup_read_witness :
-    (run init [.alloc, .register, .fetch, .doEv, .queueHup, .detach, .doneEv, .unused, .reset, .freeable, .closeFd 1, .endBatch,
+    (run init [.alloc, .register, .fetch, .doEv, .queueHup, .detach, .doneEv, .stopFlush, .unused, .reset, .freeable, .closeFd 1, .endBatch,
       .alloc, .register, .runHup 1 true]).map (fun s => (s.gen, s.bad)) = some (2, true) ∧
-    (run init [.alloc, .register, .fetch, .doEv, .queueHup, .detach, .doneEv, .unused, .reset, .freeable, .closeFd 1, .endBatch,
+    (run init [.alloc, .register, .fetch, .doEv, .queueHup, .detach, .doneEv, .stopFlush, .unused, .reset, .freeable, .closeFd 1, .endBatch,
       .runHup 1 true]).map (fun s => (s.gen, s.bad)) = some (1, false) := by decide
 
 /-- **Witness of the defect fixed by 1c26766 (D11).** Without the IsActive guard a Release on the closed
 first owner takes the token of the slot's second owner (after which the real code panics in calcMaxSize and
 never calls done(): the second owner is ignored by the poller for ever). -/
-theorem C10_D11_witness : (run init [.alloc, .register, .detach, .unused, .reset, .freeable, .fetchOther, .endBatch,
+theorem C10_D11_witness : (run init [.alloc, .register, .detach, .stopFlush, .unused, .reset, .freeable, .fetchOther, .endBatch,
     .alloc, .register, .staleRelease 1 false]).map (fun s => (s.bad, s.staleHolds, s.gen)) = some (true, true, 2) := by
   decide
 
 /-- while a stale caller holds the token the new owner's events are skipped (the stall of D11) -/
-example : (run init [.alloc, .register, .detach, .unused, .reset, .freeable, .fetchOther, .endBatch,
+example : (run init [.alloc, .register, .detach, .stopFlush, .unused, .reset, .freeable, .fetchOther, .endBatch,
     .alloc, .register, .staleRelease 1 false, .fetch, .doEv]).map (fun s => (s.pollerHolds, s.pending)) = some (false, none) := by
   decide
 
